@@ -191,6 +191,25 @@ Proof.
     inversion Hw as [[Hid Hz]]. subst id. rewrite L in L'. inversion L'; subst se. cbn in K. symmetry. exact K.
 Qed.
 
+(* Unpack of an honestly sealed datagram / first message *)
+Lemma unpack_sealed e id k salt pt :
+  lookupN id (seals e) = Some {| se_key := k; se_salt := salt; se_nonce := 0; se_pt := pt |} ->
+  length salt = salt_size (k_cipher k) ->
+  unpack e k (salt ++ seal_wire id (length pt) (tag_size (k_cipher k))) = Some pt.
+Proof.
+  intros L Hs. destruct (sizes (k_cipher k)) as (S1 & S2 & T1). unfold unpack.
+  set (cw := seal_wire id (length pt) (tag_size (k_cipher k))).
+  assert (Lc : length cw = length pt + tag_size (k_cipher k)) by (unfold cw, seal_wire; apply ct_bytes_length).
+  assert (Sk : skipn (salt_size (k_cipher k)) (salt ++ cw) = cw).
+  { rewrite <- Hs, skipn_app, skipn_all, Nat.sub_diag. reflexivity. }
+  assert (Fi : firstn (salt_size (k_cipher k)) (salt ++ cw) = salt).
+  { rewrite <- Hs, firstn_app, firstn_all, Nat.sub_diag. cbn [firstn]. apply app_nil_r. }
+  rewrite Sk, Fi, app_length, Lc, Hs.
+  assert (B1 : (salt_size (k_cipher k) + (length pt + tag_size (k_cipher k)) <? salt_size (k_cipher k)) = false) by (apply Nat.ltb_ge; lia). rewrite B1.
+  assert (B2 : (length pt + tag_size (k_cipher k) <? tag_size (k_cipher k)) = false) by (apply Nat.ltb_ge; lia). rewrite B2.
+  pose proof (aead_open_complete e id _ k L eq_refl) as C. cbn [se_pt se_salt se_nonce] in C. apply C. lia.
+Qed.
+
 (* COMPLETENESS: an honest handshake under a configured key is found, under that key *)
 Lemma find_entry_honest e sid k salt len2 rest snap :
   honest_env e sid k salt len2 -> length salt = salt_size (k_cipher k) ->
